@@ -195,6 +195,50 @@ def check_one(con, vname, fn, case, env0, timeout_s=5, pid=None):
     for e, expect in raise_expect.items():
         if expect:
             failures.append((f'raises:{e}:must', f'returned {describe(result)!r} although {e} is required'))
+    if con.yields or con.final:
+        # generator under contract: drain it (bounded), checking the yield clauses item by item
+        for gname, gdef in list(con.ghost.get('defs', {}).items()) + \
+                list((con.variants.get(vname, {}) if vname else {}).get('ghost_defs', {}).items()):
+            try:
+                env[gname] = eval_clause(gdef, env)
+            except Exception:
+                pass
+        cap = case.get('cap', 10000)
+        out = []
+        signal.alarm(timeout_s)
+        try:
+            try:
+                for item in result:
+                    env['out'] = list(out)
+                    env['item'] = bytes(item) if isinstance(item, (bytes, bytearray)) else item
+                    env['item_obj'] = item
+                    for name, text in con.yields.items():
+                        try:
+                            if not eval_clause(text, env):
+                                failures.append((f'yield:{name}', f'clause false at item {len(out)}: {describe(item)!r}'))
+                        except Exception as e2:
+                            failures.append((f'yield:{name}', f'clause raised {type(e2).__name__}: {e2}'))
+                    out.append(env['item'])
+                    if len(out) > cap or len(failures) > 5:
+                        failures.append(('decreases', f'more than {cap} items from a finite source'))
+                        break
+            except Timeout:
+                failures.append(('decreases', f'generator did not finish within {timeout_s}s'))
+            except Exception as e:   # noqa
+                failures.append((f'noexc:{type(e).__name__}', f'raised {type(e).__name__}: {e} after {len(out)} items'))
+        finally:
+            signal.alarm(0)
+        env['out'] = out
+        result = out
+        if not failures:
+            for name, text in con.final.items():
+                try:
+                    if not eval_clause(text, env):
+                        failures.append((f'post:{name}', f'clause false after {len(out)} items'))
+                except Exception as e2:
+                    failures.append((f'post:{name}', f'clause raised {type(e2).__name__}: {e2}'))
+        if failures:
+            return 'violation', failures
     if 'post' in case:
         result = case['post'](result, args)
     env['result'] = result
